@@ -540,15 +540,20 @@ class SkyCoordTableCoordinate(BaseTableCoordinate):
                               names=self.names,
                               physical_types=self.physical_types)
         else:
-            self._slice = [self.combine_slices(a, b) for a, b in zip(sane_item, self._slice)]
-            if all([isinstance(s, Integral) for s in self._slice]):
+            # Slice a new object so the coordinate being sliced is left as it is.
+            new_coord = type(self)(self.table,
+                                   mesh=True,
+                                   names=self.names,
+                                   physical_types=self.physical_types)
+            new_coord._slice = [self.combine_slices(a, b) for a, b in zip(sane_item, self._slice)]
+            if all([isinstance(s, Integral) for s in new_coord._slice]):
                 # Here we rebuild the SkyCoord with the slice applied to the individual components.
-                new_sc = SkyCoord(self.table.realize_frame(type(self.table.data)(*self._sliced_components)))
+                new_sc = SkyCoord(self.table.realize_frame(type(self.table.data)(*new_coord._sliced_components)))
                 return type(self)(new_sc,
                                   mesh=False,
                                   names=self.names,
                                   physical_types=self.physical_types)
-            return self
+            return new_coord
 
     @property
     def frame(self):
